@@ -4,6 +4,9 @@ package c20
 import (
 	"errors"
 	"fmt"
+	"hash/fnv"
+	"sort"
+	"strconv"
 	"strings"
 	"testing"
 
@@ -72,6 +75,25 @@ func check(c Case) (o ev.Outcome) {
 	ref, prov := refIndent(c.Prefix, text)
 	o.Sample = map[string]any{"prefix": string(c.Prefix), "chunks": quoteAll(c.Chunks), "limit": c.Limit}
 	o.Key = fmt.Sprintf("%q|%q|%d", c.Prefix, c.Chunks, c.Limit)
+	if len(text) > 400 {
+		// long texts: the sample names the lengths and the start of the text only
+		var lens []int
+		big := false
+		for _, ch := range c.Chunks {
+			lens = append(lens, len(ch))
+			if len(ch) > 4096 {
+				big = true
+			}
+		}
+		o.Sample = map[string]any{"prefix": string(c.Prefix), "text-starts-with": strconv.Quote(string(text[:60])), "text-length": len(text), "write-lengths": lens, "limit": c.Limit}
+		h := fnv.New64a()
+		h.Write(text)
+		o.Key = fmt.Sprintf("%q|long:%x|%v|%d", c.Prefix, h.Sum64(), lens, c.Limit)
+		o.Class("long-text")
+		if big {
+			o.Class("write-argument-over-4096-bytes")
+		}
+	}
 	hasLF := strings.IndexByte(string(text), '\n') >= 0
 	fault := c.Limit >= 0 && c.Limit < len(ref)
 	o.NonTrivial = len(c.Prefix) > 0 && hasLF && (len(c.Chunks) >= 2 || fault)
@@ -234,6 +256,38 @@ func gen(t *rapid.T) Case {
 	if rapid.IntRange(0, 7).Draw(t, "raw-prefix") == 0 {
 		prefix += string([]byte{rapid.SampledFrom([]byte{0xe9, 0xff, 0xc3}).Draw(t, "raw-prefix-byte")})
 	}
+	// an eighth of the cases: a long text (the short one repeated up to a length at or beside a power of two, up
+	// to 64 KiB and a little more) handed over in one to three large Write calls, so that single arguments run
+	// to thousands of bytes; the stop point anywhere, or right at or beside a multiple of a power of two
+	if len(text) > 0 && rapid.IntRange(0, 7).Draw(t, "long-text") == 0 {
+		size := rapid.SampledFrom([]int{256, 512, 1024, 2048, 4096, 8192, 12288, 16384, 32768, 65536}).Draw(t, "long-size") + rapid.IntRange(-2, 2).Draw(t, "long-size-off")
+		long := make([]byte, 0, size)
+		for len(long) < size {
+			long = append(long, text...)
+		}
+		long = long[:size]
+		var chunks [][]byte
+		cuts := []int{0, size}
+		for i := rapid.IntRange(0, 2).Draw(t, "long-cuts"); i > 0; i-- {
+			cuts = append(cuts, rapid.IntRange(0, size).Draw(t, "long-cut"))
+		}
+		sort.Ints(cuts)
+		for i := 1; i < len(cuts); i++ {
+			chunks = append(chunks, long[cuts[i-1]:cuts[i]])
+		}
+		ref, _ := refIndent([]byte(prefix), long)
+		limit := -1
+		switch rapid.IntRange(0, 3).Draw(t, "long-faulty") {
+		case 1:
+			limit = rapid.IntRange(0, len(ref)).Draw(t, "limit")
+		case 2, 3:
+			limit = rapid.SampledFrom([]int{256, 512, 1024, 4096, 8192}).Draw(t, "limit-unit")*rapid.IntRange(1, 8).Draw(t, "limit-multiple") + rapid.IntRange(-3, 3).Draw(t, "limit-off")
+			if limit > len(ref) {
+				limit = len(ref)
+			}
+		}
+		return Case{Prefix: []byte(prefix), Chunks: chunks, Limit: limit}
+	}
 	var chunks [][]byte
 	pos := 0
 	for pos < len(text) {
@@ -261,7 +315,7 @@ func TestCheck(t *testing.T) {
 		Level: "fault_enumeration",
 		Rule: "a case is (prefix, successive Write arguments, number of output bytes the underlying writer accepts before failing or -1); " +
 			"exhaustive part: every text over {a,LF} up to the length bound x prefixes {'>','ab','a LF'} x every division into non-empty Write calls x every stop point; " +
-			"random part: texts up to 200 bytes with multi-byte runes, CR, TAB, and in a third of the cases bytes that are not UTF-8 (Latin-1, cut sequences, NUL; sometimes in the prefix too), chunkings that split runes and include empty calls; " +
+			"random part: texts up to 200 bytes with multi-byte runes, CR, TAB, and in a third of the cases bytes that are not UTF-8 (Latin-1, cut sequences, NUL; sometimes in the prefix too), chunkings that split runes and include empty calls; an eighth of the cases repeat the text to a length at or beside a power of two between 256 bytes and 64 KiB and hand it over in one to three large Write calls, with stop points anywhere or beside multiples of powers of two; " +
 			"non-trivial = non-empty prefix, text with a line break, and either two or more Write calls or a fault inside the output; distinct by (prefix, chunks, limit)",
 		Assumptions: []string{
 			"the underlying writer obeys io.Writer: n < len(p) only together with an error",
